@@ -139,7 +139,7 @@ def abort_rule(run, rule, u):
     from .. import path
     mod = u["module"]
     for f, call, kind in c02.handler_sites(mod):
-        if not re.search(r"checked_perfect_hash<.*>::hash_type_id|virtual_ptr<.*>::final<|compiler<.*>::augment_(classes|methods)", f.dname):
+        if not re.search(r"checked_perfect_hash<.*>::hash_type_id|virtual_ptr<.*>::final<|compiler<.*>::\w+\(", f.dname):
             continue
         ok, bad = path.after_call_reaches(f, call, lambda i: i.op in ("call", "invoke") and i.get("callee") == "abort")
         run.instance(rule, "%s: abort after the report" % re.sub(r"yorel::yomm2::", "", irq.strip_ret(f.dname)), call.where(), ok=ok)
